@@ -601,6 +601,44 @@ func c13Run(c *mon.Ctx) {
 		ev.Add(1)
 		nt.AddString(line)
 	})
+	// (c2) enumerated: every flag that takes a value x tiny values made of quoting characters, written so that the
+	// character survives the line's own tokenizer (inside single quotes, inside double quotes, backslash-escaped)
+	{
+		vals := []string{`"`, `'`, `\\`, `""`, `''`, `"'`, `="`, `"=`, `=`, `!`, `!=`, `&`, `,`, `-`, `x"`, `"x`, `" "`, `\\"`}
+		wrap := func(v string) []string {
+			out := []string{"'" + strings.ReplaceAll(v, "'", `'\\''`) + "'"}
+			if !strings.ContainsAny(v, "\"\\`$") {
+				out = append(out, `"`+v+`"`)
+			}
+			esc := ""
+			for _, ch := range v {
+				esc += `\\` + string(ch)
+			}
+			return append(out, esc)
+		}
+		n := 0
+		for _, v := range vals {
+			for _, fld := range []string{"path", "dir", "uid", "exit", "arch", "msgtype", "key", "perm", "a0", "obj_type", "filetype", "auid"} {
+				for _, op := range []string{"=", "!=", ">", "&="} {
+					for _, w := range wrap(fld + op + v) {
+						e.parse(0, "-a always,exit -F "+w)
+						e.parse(0, "-a always,exit -S open -F "+w+" -k x")
+						n += 2
+					}
+				}
+			}
+			for _, w := range wrap(v) {
+				for _, fl := range []string{"-S", "-k", "-p", "-w", "-a", "-A", "-C", "-F"} {
+					e.parse(0, fl+" "+w)
+					e.parse(0, "-a always,exit "+fl+" "+w)
+					e.parse(0, "-w /etc/passwd "+fl+" "+w)
+					n += 3
+				}
+			}
+		}
+		ev.Add(int64(n))
+		c.Add("tiny_quoting_values_parsed", int64(n))
+	}
 	c.Require("decode_calls", 1000)
 	c.Require("decode_successes", 10)
 	c.Require("decode_errors", 100)
@@ -613,7 +651,7 @@ func c13Run(c *mon.Ctx) {
 func init() {
 	register(&mon.CheckSpec{
 		ID: "C13", Level: "exploration",
-		Rule: "cases = (a0) Build on otherwise valid single-filter rules - every field name x every list - whose value is a near-miss of a structured value syntax (bracketed type numbers, signs, base prefixes, errno names; punctuation soup); (a1) watches on a named pipe, a unix socket, devices and /proc files (Build must classify the target without opening it); (a) Build on hostile Rule values (arbitrary strings for list/action/field/operator/value/keys, syscall numbers at and beyond every mask-word boundary incl. 2047..2112, 2^31, 2^32, 10^30, every number 2000..2199 alone, 0-200 filters, nil / typed-nil / foreign Rule implementations, hostile watch paths and access types); (b) ToCommandLine on valid wire images with EACH of the 260 header words replaced by boundary values {0,1,63,64,65,255,2^16,2^31-1,2^31,2^32-1,buflen+-1,...}, every truncation length, multi-word mutants, bit flips, random bytes, string-length wrap-around headers - inputs placed so they end at a PROT_NONE guard page; (c) flags.Parse (+Build of what it returns) on mutated real rule lines and random strings. Monitors: recovered panic, 30 s hang bound, guard-page fault, per-call allocation bound 64*len+1MiB measured in single-worker child processes under ulimit -v, and the post-condition that ToCommandLine succeeds only on structurally valid input. distinct_nontrivial = distinct corrupted wire images and distinct hostile lines.",
+		Rule: "cases = (a0) Build on otherwise valid single-filter rules - every field name x every list - whose value is a near-miss of a structured value syntax (bracketed type numbers, signs, base prefixes, errno names; punctuation soup); (a1) watches on a named pipe, a unix socket, devices and /proc files (Build must classify the target without opening it); (a) Build on hostile Rule values (arbitrary strings for list/action/field/operator/value/keys, syscall numbers at and beyond every mask-word boundary incl. 2047..2112, 2^31, 2^32, 10^30, every number 2000..2199 alone, 0-200 filters, nil / typed-nil / foreign Rule implementations, hostile watch paths and access types); (b) ToCommandLine on valid wire images with EACH of the 260 header words replaced by boundary values {0,1,63,64,65,255,2^16,2^31-1,2^31,2^32-1,buflen+-1,...}, every truncation length, multi-word mutants, bit flips, random bytes, string-length wrap-around headers - inputs placed so they end at a PROT_NONE guard page; (c) flags.Parse (+Build of what it returns) on mutated real rule lines and random strings, and on every value-taking flag x 18 one- and two-character values made of quoting characters (written so that they survive the tokenizer). Monitors: recovered panic, 30 s hang bound, guard-page fault, per-call allocation bound 64*len+1MiB measured in single-worker child processes under ulimit -v, and the post-condition that ToCommandLine succeeds only on structurally valid input. distinct_nontrivial = distinct corrupted wire images and distinct hostile lines.",
 		Assumptions: []string{
 			"allocation is measured with runtime.MemStats.TotalAlloc around each call in processes that run one worker, so the delta belongs to the call",
 			"a read past the input is observed only when it crosses the end of the slice into the guard page (plus ASan in the thorough tier)",
